@@ -198,18 +198,21 @@ def toExponential (x : FV) (a : Arg) : Res :=
     if a.isDefined ∧ (ltI f 0 ∨ gtI f 20) then .rangeError                -- 7
     else .str (expStr s m e a.isDefined (intOf f).toNat)
 
-/-- §15.7.4.7 toPrecision steps 9–14 for a finite value and in-range p
+/-- §15.7.4.7 steps 10c–13: layout of the p-digit string `ms` with exponent `ex`
     (with the ES2015 erratum `p ≠ 1` in step 10.c.ii) -/
+def precLayout (ms : Str) (ex : Int) (p : Nat) : Str :=
+  if ex < -6 ∨ ex ≥ p then                                                -- 10c
+    (if p = 1 then ms else ms.take 1 ++ 46 :: ms.drop 1) ++ expSuffix ex
+  else if ex = (p : Int) - 1 then ms                                      -- 11
+  else if ex ≥ 0 then ms.take (ex.toNat + 1) ++ 46 :: ms.drop (ex.toNat + 1)   -- 12
+  else 48 :: 46 :: (List.replicate (-(ex + 1)).toNat 48 ++ ms)            -- 13
+
+/-- §15.7.4.7 toPrecision steps 5, 9–14 for a finite value and in-range p -/
 def precStr (s : Bool) (m : Nat) (e : Int) (p : Nat) : Str :=
   let sign : Str := if s ∧ m ≠ 0 then [45] else []
-  let (ds, ex) : List Nat × Int :=
+  let dx : List Nat × Int :=
     if m = 0 then (List.replicate p 0, 0) else sigRoundUp m e p           -- 9, 10a
-  let ms := ds.map digitCh
-  if ex < -6 ∨ ex ≥ p then                                                -- 10c
-    sign ++ (if p = 1 then ms else ms.take 1 ++ 46 :: ms.drop 1) ++ expSuffix ex
-  else if ex = (p : Int) - 1 then sign ++ ms                              -- 11
-  else if ex ≥ 0 then sign ++ ms.take (ex.toNat + 1) ++ 46 :: ms.drop (ex.toNat + 1)   -- 12
-  else sign ++ 48 :: 46 :: (List.replicate (-(ex + 1)).toNat 48 ++ ms)                 -- 13
+  sign ++ precLayout (dx.1.map digitCh) dx.2 p
 
 /-- §15.7.4.7 toPrecision -/
 def toPrecision (x : FV) (a : Arg) : Res :=
@@ -323,24 +326,36 @@ def parseFloat (s : Str) : FV :=
   | some (v, _) => v
   | none => .nan
 
-/-- §15.1.2.2 parseInt(string, radix); `r` = ToInt32(radix) -/
-def parseIntCore (s : Str) (r : Int) : FV :=
-  let rs := stripLeft (runes s)                                  -- 2
-  let (neg, rs) : Bool × List Nat := match rs with               -- 3–5
-    | 45 :: t => (true, t)
-    | 43 :: t => (false, t)
-    | _ => (false, rs)
+/-- §15.1.2.2 steps 3–5: the sign -/
+def signOf (rs : List Nat) : Bool × List Nat :=
+  match rs with
+  | [] => (false, rs)
+  | c :: t => if c = 45 then (true, t) else if c = 43 then (false, t) else (false, rs)
+
+/-- §15.1.2.2 step 10: the optional 0x / 0X -/
+def hexPrefix (strip : Bool) (rs : List Nat) (radix : Nat) : List Nat × Nat :=
+  match rs with
+  | a :: x :: t => if strip ∧ a = 48 ∧ (x = 120 ∨ x = 88) then (t, 16) else (rs, radix)
+  | _ => (rs, radix)
+
+/-- §15.1.2.2 parseInt steps 3–16 on the white-space-stripped input; `r` = ToInt32(radix).
+    The result is the Number value for sign × mathInt (correctly rounded: `ofInt`). -/
+def parseIntBody (rs : List Nat) (r : Int) : FV :=
+  let neg := (signOf rs).1                                        -- 3–5
+  let rs := (signOf rs).2
   if r ≠ 0 ∧ (r < 2 ∨ r > 36) then .nan else                      -- 8a
   let strip : Bool := r = 0 ∨ r = 16                              -- 7, 8b
   let radix : Nat := if r = 0 then 10 else r.toNat                -- 9
-  let (rs, radix) : List Nat × Nat := match rs with               -- 10
-    | 48 :: x :: t => if strip ∧ (x = 120 ∨ x = 88) then (t, 16) else (rs, radix)
-    | _ => (rs, radix)
-  let z := rs.takeWhile (fun c => digitValue c < radix)           -- 11
+  let radix' := (hexPrefix strip rs radix).2                      -- 10
+  let rs := (hexPrefix strip rs radix).1
+  let z := rs.takeWhile (fun c => digitValue c < radix')          -- 11
   if z.isEmpty then .nan else                                     -- 12
-  let mathInt := z.foldl (fun n c => n * radix + digitValue c) 0  -- 13
+  let mathInt := z.foldl (fun n c => n * radix' + digitValue c) 0 -- 13
   if mathInt = 0 then .fin neg 0 0                                -- 14–16 (sign × 0)
-  else ofRatParts neg mathInt 1
+  else ofInt (if neg then -(mathInt : Int) else (mathInt : Int))
+
+/-- §15.1.2.2 parseInt(string, radix) -/
+def parseIntCore (s : Str) (r : Int) : FV := parseIntBody (stripLeft (runes s)) r
 
 def parseInt (s : Str) (radixArg : Arg) : FV :=
   let r : Int := match radixArg with
@@ -476,23 +491,21 @@ def num (s : Str) : List String :=
      if (x = 120 ∨ x = 88) ∧ !hs.isEmpty ∧ hs.all isHexDigit ∧ hexValNat hs ≥ 2 ^ 63 then ["num_hex_big"] else []
    | _ => [])
 
-def pintCore (s : Str) (r : Int) : List String :=
-  let rs := stripLeft (runes s)
-  let (neg, rs) : Bool × List Nat := match rs with
-    | 45 :: t => (true, t)
-    | 43 :: t => (false, t)
-    | _ => (false, rs)
+def pintBody (rs : List Nat) (r : Int) : List String :=
+  let neg := (signOf rs).1
+  let rs := (signOf rs).2
   if r ≠ 0 ∧ (r < 2 ∨ r > 36) then [] else
   let strip : Bool := r = 0 ∨ r = 16
   let radix : Nat := if r = 0 then 10 else r.toNat
-  let (rs, radix) : List Nat × Nat := match rs with
-    | 48 :: x :: t => if strip ∧ (x = 120 ∨ x = 88) then (t, 16) else (rs, radix)
-    | _ => (rs, radix)
-  let z := rs.takeWhile (fun c => digitValue c < radix)
+  let radix' := (hexPrefix strip rs radix).2
+  let rs := (hexPrefix strip rs radix).1
+  let z := rs.takeWhile (fun c => digitValue c < radix')
   if z.isEmpty then [] else
-  let mathInt := z.foldl (fun n c => n * radix + digitValue c) 0
+  let mathInt := z.foldl (fun n c => n * radix' + digitValue c) 0
   (if mathInt ≥ 2 ^ 63 then ["parseInt_big"] else []) ++
   (if neg ∧ mathInt = 0 then ["parseInt_negzero"] else [])
+
+def pintCore (s : Str) (r : Int) : List String := pintBody (stripLeft (runes s)) r
 
 def pint (s : Str) (a : Arg) : List String :=
   match a with
